@@ -76,6 +76,9 @@ class CPCCARotator(CPCCA):
     ):
         BaseModel.__init__(self)
 
+        if not isinstance(n_modes, int) or n_modes < 1:
+            raise ValueError("n_modes must be an integer greater than 0")
+
         if max_iter is None:
             max_iter = 1000 if compute else 100
 
